@@ -6,13 +6,13 @@ From WV Require Import C33.Model C33.Proofs.
 Import ListNotations.
 Open Scope N_scope.
 
-(* For every name table (any set of objects, archive members and shared libraries), every duplicate-free list of
-   wrapped base names each of which has a __wrap_ definition (and no stray definition of __real_S when S itself is
+(* For every name table (any set of objects, archive members and shared libraries), every list of wrapped base
+   names (in any order, repetitions allowed) each of which has a __wrap_ definition (and no stray definition of __real_S when S itself is
    undefined), every referenced name binds under wild exactly as under GNU ld — in particular S -> __wrap_S and
    __real_S -> the original S, everything else unchanged. *)
 Theorem C33_wrap_binds_as_gnu_ld :
   forall t ws,
-    NoDup ws -> Forall (fun s => is_base s = true) ws ->
+    Forall (fun s => is_base s = true) ws ->
     (forall s, In s ws -> t (Wrap s) <> None /\ (t s = None -> t (Real s) = None)) ->
     forall n, wild_resolve t ws n = gnu_resolve t ws n.
 Proof. exact wild_eq_gnu. Qed.
@@ -26,7 +26,7 @@ Print Assumptions C33_defining_object_unaffected.
 
 (* the closed form of wild's rewrite (no hypothesis on which wrappers exist) *)
 Theorem C33_wild_table_closed_form :
-  forall t ws, NoDup ws -> Forall (fun s => is_base s = true) ws -> forall n, wild_table t ws n = cf t ws n.
+  forall t ws, Forall (fun s => is_base s = true) ws -> forall n, wild_table t ws n = cf t ws n.
 Proof. exact wild_table_closed_form. Qed.
 Print Assumptions C33_wild_table_closed_form.
 
@@ -37,10 +37,11 @@ Theorem C33_refuted_wrapper_missing :     (* --wrap=S, S defined (id 1), no __wr
 Proof. vm_compute. split; reflexivity. Qed.
 Print Assumptions C33_refuted_wrapper_missing.
 
-Theorem C33_refuted_wrap_given_twice :    (* --wrap=S --wrap=S: __real_S ends up at the wrapper *)
+Theorem C33_refuted_wrap_given_twice :    (* the pinned tree, --wrap=S --wrap=S: __real_S ended up at the wrapper (repaired) *)
   let t := of_list [(Base 1, 1); (Wrap (Base 1), 2)] in
-  wild_resolve t [Base 1; Base 1] (Real (Base 1)) = Some 2 /\ gnu_resolve t [Base 1; Base 1] (Real (Base 1)) = Some 1.
-Proof. vm_compute. split; reflexivity. Qed.
+  wild_resolve_pinned t [Base 1; Base 1] (Real (Base 1)) = Some 2 /\ gnu_resolve t [Base 1; Base 1] (Real (Base 1)) = Some 1 /\
+  wild_resolve t [Base 1; Base 1] (Real (Base 1)) = Some 1.
+Proof. vm_compute. repeat split; reflexivity. Qed.
 Print Assumptions C33_refuted_wrap_given_twice.
 
 Theorem C33_refuted_real_defined_original_missing :
@@ -51,6 +52,6 @@ Print Assumptions C33_refuted_real_defined_original_missing.
 
 Example C33_hypotheses_satisfiable :
   let t := of_list [(Base 1, 1); (Wrap (Base 1), 2); (Base 2, 3)] in
-  NoDup [Base 1] /\ (t (Wrap (Base 1)) <> None) /\
+  (t (Wrap (Base 1)) <> None) /\
   wild_resolve t [Base 1] (Base 1) = Some 2 /\ wild_resolve t [Base 1] (Real (Base 1)) = Some 1 /\ wild_resolve t [Base 1] (Base 2) = Some 3.
-Proof. split; [repeat constructor; intros []|]. vm_compute. repeat split; discriminate || reflexivity. Qed.
+Proof. vm_compute. repeat split; discriminate || reflexivity. Qed.
